@@ -105,7 +105,17 @@ def gen_case(rng: random.Random, big=False) -> dict:
     query = " ".join(rng.sample(VOCAB, rng.randint(0, 3)))
     if eps and rng.random() < 0.3:
         query = rng.choice(eps)["text"]  # exact text of an episode: cosine 1.0
-    return {"eps": eps, "t2": t2, "gel": gel, "graphs": graphs, "t1_ids": t1_ids, "slice": sl, "query": query,
+    followups = []
+    for _ in range(rng.choice([0, 1, 2, 3])):
+        fu = {"agent": rng.choice(["A", "B", "Z"])}
+        if rng.random() < 0.3:
+            fu["query"] = " ".join(rng.sample(VOCAB, rng.randint(0, 3)))
+        if rng.random() < 0.3:
+            fu["t2"] = {"owner_scope": rng.choice(["any", "agent", "world"])}
+        elif rng.random() < 0.2:
+            fu["t2"] = {"tiers": rng.sample(["exact_semantic", "cluster_semantic", "archive"], rng.randint(1, 3))}
+        followups.append(fu)
+    return {"eps": eps, "t2": t2, "gel": gel, "graphs": graphs, "t1_ids": t1_ids, "slice": sl, "query": query, "followups": followups,
             "agent": rng.choice(["A", "A", "B", "Z"]), "k_surface": DIM}
 
 
@@ -228,7 +238,7 @@ def ids_of(items):
     return out
 
 
-def check_case(case, sess: Session):
+def check_case(case, sess: Session, shared=None):
     import clematis.engine.stages.t2.core as core
     import clematis.engine.stages.t2.quality as qual
     import clematis.engine.stages.t2.quality_ops as qops
@@ -240,21 +250,28 @@ def check_case(case, sess: Session):
         sess.count("cfg_rejected_by_validator")
         return
     t2c = cfg["t2"]
-    idx = build_index(case["eps"], dim=DIM)
+    if shared is not None and "idx" in shared:
+        # follow-up call of a history: same index object / store / GEL graph as the earlier calls
+        idx, st, state = shared["idx"], shared["st"], shared["state"]
+        sess.count("followup_calls_on_shared_index")
+    else:
+        idx = build_index(case["eps"], dim=DIM)
+        st = build_store(case["graphs"]) if case["graphs"] else None
+        state = {"mem_index": idx}
+        if st is not None:
+            state["store"] = st
+            state["active_graphs"] = list(case["graphs"])
+        if case.get("gel") is not None:
+            edges = {}
+            for a, b, w in case["gel"]:
+                k = f"{a}→{b}" if a <= b else f"{b}→{a}"
+                edges[k] = {"id": k, "src": min(a, b), "dst": max(a, b), "weight": w, "rel": "coact"}
+            state["graph"] = {"nodes": {}, "edges": edges, "meta": {}}
+        if shared is not None:
+            shared.update(idx=idx, st=st, state=state)
     eps = idx._eps
     eps_snapshot = [(e.get("id"), e.get("owner"), e.get("ts"), e.get("text"), None if e.get("vec_full") is None else np.asarray(e["vec_full"]).tobytes(), repr(e.get("aux"))) for e in eps]
-    st = build_store(case["graphs"]) if case["graphs"] else None
     order = list(case["graphs"])
-    state = {"mem_index": idx}
-    if st is not None:
-        state["store"] = st
-        state["active_graphs"] = order
-    if case.get("gel") is not None:
-        edges = {}
-        for a, b, w in case["gel"]:
-            k = f"{a}→{b}" if a <= b else f"{b}→{a}"
-            edges[k] = {"id": k, "src": min(a, b), "dst": max(a, b), "weight": w, "rel": "coact"}
-        state["graph"] = {"nodes": {}, "edges": edges, "meta": {}}
     gel0 = copy.deepcopy(state.get("graph"))
     now_iso = iso_from_ms(NOW_MS)
     ctx = NS(cfg=cfg, config=cfg, agent_id=case["agent"], now=now_iso, now_ms=NOW_MS, turn_id=1)
@@ -440,6 +457,23 @@ def check_case(case, sess: Session):
     sess.case(case, nontrivial=len(got) >= 2, sample={"query": case["query"], "got": got[:5], "tiers": tiers, "scope": scope})
 
 
+def check_history(case, sess: Session):
+    """The case's own call, then follow-up calls on the *same* index / store objects with another agent,
+    scope, tier list or query (a retrieval result must not depend on what was asked before)."""
+    shared = {}
+    check_case(case, sess, shared)
+    if "idx" not in shared:
+        return
+    for fu in case.get("followups", []):
+        c2 = dict(case)
+        c2["agent"] = fu.get("agent", case["agent"])
+        c2["query"] = fu.get("query", case["query"])
+        c2["t2"] = {**case["t2"], **fu.get("t2", {})}
+        c2["followups"] = []
+        c2["history_prefix"] = {"agent": case["agent"], "query": case["query"], "t2": case["t2"]}
+        check_case(c2, sess, shared)
+
+
 def _chunk(args):
     tier, seed, i, n = args
     from vlib import bootstrap
@@ -450,7 +484,7 @@ def _chunk(args):
     for _ in range(n):
         case = gen_case(rng, big=(tier == "thorough" and rng.random() < 0.2))
         try:
-            check_case(case, sess)
+            check_history(case, sess)
         except Exception as ex:
             import traceback
             sess.inconclusive_because(f"harness error {type(ex).__name__}: {ex} @ {traceback.format_exc()[-300:]}")
@@ -474,11 +508,19 @@ def main(tier: str, seed: int):
     sess.require("layer_calls:mmr", 10)
     sess.require("cases_with_residuals", 20)
     sess.require("agent_scoped_nonempty_results", 20)
+    sess.require("followup_calls_on_shared_index", 200)
     sess.finish()
 
 
 def replay(body, tier, seed):
     sess = Session(PID, tier, seed, rule=RULE)
     sess.replay_mode = True
-    check_case(unjson(body["case"]), sess)
+    case = unjson(body["case"])
+    if case.get("history_prefix"):
+        hp = case["history_prefix"]
+        first = dict(case, agent=hp["agent"], query=hp["query"], t2=hp["t2"], followups=[{"agent": case["agent"], "query": case["query"], "t2": case["t2"]}])
+        first.pop("history_prefix")
+        check_history(first, sess)
+    else:
+        check_history(case, sess)
     return sess.finish(exit_process=False)
